@@ -91,8 +91,9 @@ class P(Prop):
         (M, "TV.C13.columns_roundtrip", "ids a bijection onto 0..k-1 => __printInOrder writes the datum with id j in column j (then the features) and the reader's fields[id_X] finds X"),
         (M, "TV.C13.validIds_iff", "the valid id assignments are exactly the 2+6+6+24 permutation layouts"),
         (M, "TV.C13.row_roundtrip", "a data line written by writeToFile (any valid layout, any feature columns, separator not a number character, lossless time format avoiding the separator) is read back by __readFromCsv as the same observation"),
-        (M, "TV.C13.csv_file_roundtrip", "whole file: writeToFile then readFromCsv(h=0) returns the same observations in the same order; readFromCsv(h=1) loses the first one (no header is ever written)"),
-        (M, "TV.C13.csv_header_block_roundtrip", "reader side of h=1: a first line, comment lines, then the data lines are read as exactly the observations"),
+        (M, "TV.C13.csv_file_roundtrip", "whole file: writeToFile(h) - data lines, preceded for h>0 by the three comment lines #srid/#ref point/#column names - then readFromCsv(h=hr) returns the same observations in the same order for every hr up to the number of header lines written (0 for h=0, else 3)"),
+        (M, "TV.C13.csv_file_roundtrip_matching", "the matching call: written with the flag h in {0,1} and read with h=h, every observation comes back"),
+        (M, "TV.C13.csv_header_block_roundtrip", "reader side of the header option: `header` first lines of any content, comment lines, then the data lines are read as exactly the observations"),
         (M, "TV.C13.time_roundtrip", "readTimestamp(str(t)) gives back the fields named by a format of distinct full-width codes, for every stamp that fits the widths"),
         (M, "TV.C13.time_roundtrip_suffix", "the same when text follows the printed stamp (the Z of a GPX <time>)"),
         (M, "TV.C13.time_roundtrip_full", "with the six calendar codes the calendar part is read back identically"),
@@ -100,7 +101,7 @@ class P(Prop):
         (M, "TV.C13.wkt_roundtrip", "parseWkt(track.toWKT()) returns the same vertices in the same order for every non-empty lattice track"),
         (M, "TV.C13.repr_value", "float(str(n/10^d)) has the value n/10^d (trailing zeros trimmed)"),
         (M, "TV.C13.network_row_roundtrip", "an edge line written by writeToCsv is split by csv.reader into its five fields and rebuilt by readLineAndAddToNetwork as the same edge"),
-        (M, "TV.C13.net_file_roundtrip", "whole network file: h=1/header=1 returns all edges in order; h=0/header=0 returns them without the first"),
+        (M, "TV.C13.net_file_roundtrip", "whole network file: h=1/header=1 and h=0/header=0 both return all edges in order"),
         (M, "TV.C13.gpx_file_roundtrip", "the body writeToGpx writes for a track is read by the trk scanner, with an ISO read format, as one track with the same points in order (elevation only for geographic coordinates)"),
         (M, "TV.C13.gpx_read_formats", "'4Y-2M-2DT2h:2m:2s' with or without Z reads the stamps the GPX writer prints, calendar part unchanged"),
         (M, "TV.C13.written_precision_partial", "on the decimal lattice the printed coordinate and what float() reads denote the same number (format()'s rounding of arbitrary doubles not covered)"),
@@ -111,16 +112,17 @@ class P(Prop):
                        "formats as it found them",
                        "the string-level find/replace loops of ObsTime.__str__ and __precompileReadFmt are modelled on the tokenised format (codes recognised left to right); "
                        "equivalence with the string algorithm for formats whose literals are not code letters is checked by correspondence only",
-                       "read_all feature columns are not modelled on the reader side (the writer never emits the header line that names them)"]
+                       "read_all feature columns (named by the last header line) are not modelled on the reader side"]
     modelled = ("TrackWriter.writeToFile (O list, sort, __printInOrder, float formats), TrackReader.__readFromCsv (data loop, header/comment "
                 "skipping, field extraction, no-data rule; read_all not modelled), ObsTime.__str__/__precompileReadFmt/readTimestamp/__fillMember "
                 "(tokenised format, no '*' wildcard), NetworkWriter.writeToCsv, NetworkReader.readFromFile + readLineAndAddToNetwork + "
                 "wktLineStringToObs + Network.addNode order, Track.toWKT, TrackReader.parseWkt (LINESTRING), TrackWriter.writeToGpx body, "
-                "TrackReader.__readFromGpx (type trk, as per-tag steps gpxPt/gpxEndPt/gpxEle/gpxTime); the header block of writeToFile is modelled behind hdrEff (never emitted on this tree)")
+                "TrackReader.__readFromGpx (type trk, as per-tag steps gpxPt/gpxEndPt/gpxEle/gpxTime); the header block of writeToFile (h > 0: #srid, #ref point, #column names + feature names; no Reference epoch line, fmt.time_ini stays -1)")
     trusted = ["Python's format()/repr()/float()/int() on the decimal lattice are modelled by an own decimal printer/parser; the rounding done by format() on "
                "off-lattice floats is computed by the harness with exact rational arithmetic and handed to the model",
                "csv.reader is modelled as its documented state machine (delimiter, doublequote); file system calls are trusted"]
-    rule = ("exhaustive: every column layout (24+6+6+2 id permutations) x separators , ; blank x h in {0,1} x ENU/GEO/ECEF; random tracks of 1-6 fixes with "
+    rule = ("exhaustive: every column layout (24+6+6+2 id permutations) x separators , ; blank x h in {0,1} (header block written / not, read with the same h) x ENU/GEO/ECEF; "
+            "writer h in {1,2,3} x reader header 0..5 (correspondence); random tracks of 1-6 fixes with "
             "negative / 1e6-large / many-decimal coordinates on and off the 1 mm / 1e-8 deg lattice, timestamps at midnight, month, year ends and leap days; "
             "time formats; GPX write/read; networks of 1-4 edges, three orientations, 2-5 vertices; WKT; sessions of 2-4 operations (CSV, GPX to one file, GPX "
             "to one file per track in a directory, network, WKT, timeWithZone, KML) sharing the global ObsTime formats set once at the start. non-trivial = at least one non-zero coordinate "
@@ -246,7 +248,7 @@ class P(Prop):
         L = self.layouts()
         if kind == "csv":
             ids = rng.choice([l for l in L if l["T"] != -1] * 3 + L)
-            c = self.csv_case(rng, ids, rng.choice([",", ";", "|", "\t"]), 0, rng.choice(SRIDS), q=rng.choice(["lat", "lat", None]),
+            c = self.csv_case(rng, ids, rng.choice([",", ";", "|", "\t"]), rng.choice([0, 0, 1]), rng.choice(SRIDS), q=rng.choice(["lat", "lat", None]),
                               pfmt=fmt, naf=rng.choice([0, 0, 1]), n=rng.choice([1, 2, 3]))
             return c
         if kind == "gpx":
@@ -344,6 +346,13 @@ class P(Prop):
             out.append(self.csv_case(rng, ids, rng.choice([",", ";"]), 0, rng.choice(SRIDS), naf=rng.choice([0, 0, 1])))
         for _ in range(60 if not thorough else 600):
             out.append(self.csv_case(rng, rng.choice(L), rng.choice([",", ";"]), 0, rng.choice(SRIDS), hdrR=rng.choice([1, 2, 3])))
+        # header block written (any h > 0 writes the same three comment lines) and read with every header count, including
+        # counts that run into the data lines or past the end of the file
+        for h in (1, 2, 3):
+            for hdrR in range(6):
+                for _ in range(6 if not thorough else 60):
+                    out.append(self.csv_case(rng, rng.choice(L), rng.choice([",", ";", "|"]), h, rng.choice(SRIDS), hdrR=hdrR,
+                                             naf=rng.choice([0, 1, 2]), n=rng.choice([1, 2, 3])))
         for _ in range(40 if not thorough else 400):
             c = self.csv_case(rng, rng.choice(L), rng.choice([",", ";"]), 0, rng.choice(["ENU", "ECEF"]), n=3)
             c["rows"][rng.randrange(3)][rng.randrange(2)] = rng.choice([-999999000, -999999999, -999999500, -1000000000, -999998999])
@@ -822,6 +831,8 @@ class P(Prop):
             return "column ids are not a permutation of 0..k-1"
         if case["hdrR"] != case["h"]:
             return "reader header differs from the writer's h"
+        if case["h"] not in (0, 1):
+            return "the writer's h is a flag (0 or 1)"
         if case["rfmt"] != case["pfmt"] or not fmt_is_lossless(case["pfmt"]):
             return "time format is not read back with itself / is lossy"
         if ids["T"] != -1 and not FULL_CODES <= {c for kd, c in fmt_tokens(case["pfmt"]) if kd == "code"}:
@@ -975,12 +986,8 @@ class P(Prop):
         if k == "csv":
             if case["ids"]["T"] != -1 and case["sep"] in case["pfmt"]:
                 return "csv-separator-in-timestamp"
-            if case["h"] >= 1:
-                return "csv-header-not-written"
         if k == "gpx" and case["srid"] != "GEO" and any(r[2] != 0 for r in case["rows"]):
             return "gpx-elevation-non-geo"
-        if k == "net" and case["h"] == 0 and case["hdrR"] == 0:
-            return "network-no-header-first-edge"
         return None
 
     # ------------------------------------------------------------------ shrinking / search
@@ -1052,7 +1059,9 @@ class P(Prop):
             for ids in rng.sample(self.layouts(), 6):
                 yield dict(case, ids=ids)
             for sep in (",", ";"):
-                yield dict(case, sep=sep, h=0, hdrR=0)
+                for h in (0, 1):
+                    yield dict(case, sep=sep, h=h, hdrR=h)
         if k == "net":
             for sep in (",", ";"):
-                yield dict(case, sep=sep, h=1, hdrR=1)
+                for h in (0, 1):
+                    yield dict(case, sep=sep, h=h, hdrR=h)
